@@ -65,7 +65,7 @@ fn read_all_oracle(mode: u8, ctx: Ctx, data: &[u8], obs: &[i128]) -> Oracle {
 }
 
 pub fn run(em: &mut Emitter, rng: &mut Rng, thorough: bool) {
-    let n_valid = if thorough { 60_000 } else { 6_000 };
+    let n_valid = if thorough { 240_000 } else { 6_000 };
     let ctxs = [Ctx::Top, Ctx::Definite, Ctx::Indefinite];
     for _ in 0..n_valid {
         let mode = rng.below(3) as u8;
@@ -182,7 +182,7 @@ pub fn run(em: &mut Emitter, rng: &mut Rng, thorough: bool) {
         }
     }
     // short random octet strings
-    for _ in 0..(if thorough { 200_000 } else { 20_000 }) {
+    for _ in 0..(if thorough { 800_000 } else { 20_000 }) {
         let mode = rng.below(3) as u8;
         let n = rng.range(0, 10) as usize;
         let mut d = rng.bytes(n);
